@@ -49,6 +49,15 @@ FamRes ==
             Dom(<<x, r>>) \o <<DOT>>, r \o <<DOT>> } : r \in ResAll } \cup
   UNION { { e, Dom(<<x, e>>), Dom(<<Lb(7), e>>) } : e \in UNION { Edit1(r) : r \in ResAll } } \cup
   UNION { UNION { { SubSeq(r, 1, j), Dom(<<x, SubSeq(r, 1, j)>>), Dom(<<x, SubSeq(r, j, Len(r))>>) } : j \in 2..Len(r) } : r \in ReservedTlds } \cup
+  \* a reserved word extended by one to five characters (in front or behind), alone and as last label
+  UNION { UNION { { r \o Rep(120, n), Rep(120, n) \o r, Dom(<<x, r \o Rep(120, n)>>), Dom(<<x, Rep(120, n) \o r>>), Dom(<<S_example, S_com \o Rep(120, n)>>) }
+                  : n \in 1..5 } : r \in ReservedTlds } \cup
+  \* labels of every length AFTER a reserved word (the reserved word is then not the last label)
+  UNION { UNION { { Dom(<<r, Lb(n)>>), Dom(<<x, r, Lb(n)>>) } : n \in 1..63 } : r \in {S_example, S_test, S_localhost} } \cup
+  \* a reserved word glued to other label characters (hyphen, digit, underscore, letter) is an ordinary label
+  UNION { UNION { { g \o r, r \o g, Dom(<<x, g \o r>>), Dom(<<x, r \o g>>), Dom(<<x, x, g \o r>>), Dom(<<g \o r, S_com>>), Dom(<<x, r \o g, S_org>>),
+                    Dom(<<g \o S_example, S_com>>), Dom(<<x, g \o S_example, S_net>>), Dom(<<S_example \o g, S_org>>), Dom(<<S_example, g \o S_com>>) }
+                  : g \in { <<120, HYPHEN>>, <<HYPHEN, 120>>, <<109, 121, HYPHEN>>, <<49>>, <<120, 49, HYPHEN>>, <<HYPHEN>> } } : r \in ReservedTlds } \cup
   { Dom(<<S_example, <<99, 111>>>>), Dom(<<x \o S_example, S_com>>), Dom(<<S_example, S_com \o <<109>>>>), Dom(<<x, S_test \o <<115>>>>),
     Dom(<<S_example \o <<97>>>>), Dom(<<S_example, S_com, x>>), Dom(<<S_com, S_example>>) }
 
